@@ -760,8 +760,21 @@ func (i *interpreter) concInt(v value, kind string) int64 {
 	return asInt64(v)
 }
 
+// mapOrder: Go leaves the iteration order of maps unspecified.  By default
+// the engine iterates in insertion order; a harness may ask (vMapOrder)
+// for the start position to become a decision (rotations, like the
+// runtime's random start bucket), for maps of 2..4 entries.
 func (i *interpreter) mapOrder(live []*oentry) []*oentry {
-	return live
+	if !i.env.mapOrderNondet || i.path == nil || len(live) < 2 || len(live) > 4 {
+		return live
+	}
+	r := i.path.choose(len(live), "maporder")
+	if r == 0 {
+		return live
+	}
+	out := make([]*oentry, 0, len(live))
+	out = append(out, live[r:]...)
+	return append(out, live[:r]...)
 }
 
 var _ = types.Bool
